@@ -1340,6 +1340,10 @@ BD_Shape<T>::max_min(const Linear_Expression& expr,
       }
       // Approximating the maximum/minimum of `expr'.
       add_mul_assign_r(d, coeff_expr, x, ROUND_UP);
+      if (is_plus_infinity(d)) {
+        // The computation overflowed: no finite bound is known.
+        return false;
+      }
       numer_denom(d, ext_n, ext_d);
       if (!maximize) {
         neg_assign(ext_n);
